@@ -56,9 +56,9 @@ mut("C13", "decode-fact-swallows-data-id", [("librfn/wavheader.c", "\t\twh->samp
 
 # C20
 mut("C20", "mlog-fold-255", [("librfn/mlog.c", "\t\tlog.head -= lengthof(log.line);", "\t\tlog.head -= lengthof(log.line) - 1;")], r"counter invariant|vmlog.postcondition")
-mut("C20", "mlog-getline-off-by-one-after-wrap", [("librfn/mlog.c", "\t\tn += log.head;", "\t\tn += log.head + 1;")], r"line k is the slot|get_line.postcondition")
-mut("C20", "mlog-nice-le", [("librfn/mlog.c", "if (log.head < lengthof(log.line))\n\t\tvmlog", "if (log.head <= lengthof(log.line))\n\t\tvmlog")], r"mlog_nice|vmlog_nice")
-mut("C20", "mlog-getline-gt", [("librfn/mlog.c", "if (n >= log.head || n >= lengthof(log.line))", "if (n > log.head || n >= lengthof(log.line))")], r"line k is the slot|get_line.postcondition|NULL")
+mut("C20", "mlog-getline-off-by-one-after-wrap", [("librfn/mlog.c", "\t\tn += log.head;", "\t\tn += log.head + 1;")], r"line k is the slot|get_line.postcondition", skip_tests=True)
+mut("C20", "mlog-nice-le", [("librfn/mlog.c", "if (log.head < lengthof(log.line))\n\t\tvmlog", "if (log.head <= lengthof(log.line))\n\t\tvmlog")], r"mlog_nice|vmlog_nice", skip_tests=True)
+mut("C20", "mlog-getline-gt", [("librfn/mlog.c", "if (n >= log.head || n >= lengthof(log.line))", "if (n > log.head || n >= lengthof(log.line))")], r"line k is the slot|get_line.postcondition|NULL", skip_tests=True)
 mut("C20", "mlog-arg-order", [("librfn/mlog.c", "log.line[head].arg[1] = va_arg(ap, uintptr_t);\n\tlog.line[head].arg[2] = va_arg(ap, uintptr_t);", "log.line[head].arg[2] = va_arg(ap, uintptr_t);\n\tlog.line[head].arg[1] = va_arg(ap, uintptr_t);")], r"stores format and three arguments")
 mut("C20", "mlog-dump-from-1", [("librfn/mlog.c", "for (int i=0; (line = get_line(i)); i++)", "for (int i=1; (line = get_line(i)); i++)")], r"mlog_dump")
 mut("C20", "mlog-getline-signed", [("librfn/mlog.c", "char *mlog_get_line(int n)\n{\n\tstruct mlog_line *line = get_line(n);", "char *mlog_get_line(int n)\n{\n\tstruct mlog_line *line = get_line(n < 0 ? -n : n);")], r"negative")
